@@ -272,8 +272,11 @@ def section_increment_wiring(rep, mutate=None):
     M, g = cap['mat_ib'], cap['g_i']
     gy = imu[['gyro_x', 'gyro_y', 'gyro_z']].values
     ac = imu[['accel_x', 'accel_y', 'accel_z']].values
+    dt_flat = np.asarray(dt, dtype=object).reshape(-1)
+    if dt_flat.size == 1 and n - 1 > 1:
+        dt_flat = np.array([dt_flat[0]] * (n - 1), dtype=object)        # a scalar broadcasts over the intervals
     for k in range(n - 1):
-        Z('dt of interval %d = stamp difference' % k, J(np.asarray(dt, dtype=object).reshape(-1)[k]) - (ts[k + 1] - ts[k]))
+        Z('dt of interval %d = stamp difference' % k, J(dt_flat[k]) - (ts[k + 1] - ts[k]))
         dk = np.dot(M[k].T, acc[1][k] - g[k])
         ek = np.dot(M[k].T, acc[0][k] - (g[k + 1] - g[k]) / (ts[k + 1] - ts[k]))
         for i in range(3):
@@ -714,9 +717,17 @@ def replay(spec):
         # body-frame Earth rate / reaction to gravity times the interval, although in the inertial
         # frame in which generate_imu works attitude, acceleration and gravitation all rotate
         from pyins import transform as T_
-        for dt_ in (0.1, 1.0):
+        for mode_ in (0.1, 1.0, 'irregular'):
             for lla0, rph0 in (([50.0, 30.0, 1000.0], [10.0, -20.0, 100.0]), ([-35.0, -100.0, 50.0], [-170.0, 40.0, -60.0])):
-                tt = np.arange(0, 12 * dt_, dt_)
+                dt_ = mode_
+                if mode_ == 'irregular':
+                    # irregular stamps (jitter, a dropped sample, a rate change): every increment is the
+                    # integral over ITS OWN interval
+                    steps = np.array([0.05, 0.1, 0.1, 0.2, 0.1, 0.07, 0.13, 0.1, 0.3, 0.1, 0.1])
+                    tt = np.concatenate([[0.0], np.cumsum(steps)])
+                    dt_ = np.concatenate([[steps[0]], steps])[:, None]
+                else:
+                    tt = np.arange(0, 12 * dt_, dt_)
                 lla_ = np.tile(lla0, (len(tt), 1))
                 rph_ = np.tile(rph0, (len(tt), 1))
                 tr_, imu_ = sim.generate_imu(tt, lla_, rph_, None, 'increment')
@@ -725,10 +736,12 @@ def replay(spec):
                 ac = -C.T @ earth.gravity_n(lla0[0], lla0[2]) * dt_
                 eg = np.abs(imu_[['gyro_x', 'gyro_y', 'gyro_z']].values - gy).max()
                 ea = np.abs(imu_[['accel_x', 'accel_y', 'accel_z']].values - ac).max()
-                if eg > 1e-12 * max(1.0, dt_ / 0.1):
-                    fails.append('increment sensor at rest (dt=%g): gyro increments differ from the body-frame Earth rate times dt by %.3g rad' % (dt_, eg))
-                if ea > 2e-7:
-                    fails.append('increment sensor at rest (dt=%g): accel increments differ from the reaction to gravity times dt by %.3g m/s' % (dt_, ea))
+                dmax = float(np.max(dt_))
+                lab = ('%g' % dt_) if np.ndim(dt_) == 0 else 'irregular 0.05..0.3'
+                if eg > 1e-12 * max(1.0, dmax / 0.1):
+                    fails.append('increment sensor at rest (dt=%s): gyro increments differ from the body-frame Earth rate times dt by %.3g rad' % (lab, eg))
+                if ea > 2e-7 * max(1.0, 0.1 / float(np.min(dt_))):
+                    fails.append('increment sensor at rest (dt=%s): accel increments differ from the reaction to gravity times dt by %.3g m/s' % (lab, ea))
                 if len(imu_) != len(tt) or not np.array_equal(imu_.values[0], imu_.values[1]):
                     fails.append('increment sensor: one row per stamp with the first sample duplicated does not hold')
         return {'violated': bool(fails), 'detail': fails}
